@@ -300,13 +300,21 @@ def _w_set_field(self, op):
     if op.get("inplace") == "line":
         # the line part of an oriented reference replaced in place: line.<field>[k].line = value
         def _edit():
-            v = l.get(op["field"])
+            # ('links' of a GFA1 path is not a field: the collection of the links the path goes through)
+            v = l.links if (op["field"] == "links" and l.record_type == "P") else l.get(op["field"])
             if isinstance(v, list):
                 if not v:
                     raise gfapy.NotFoundError("empty list")
                 v = v[op.get("idx", 0) % len(v)]
             if not isinstance(v, gfapy.OrientedLine):
                 raise gfapy.TypeError("not an oriented reference")
+            if op["field"] == "links":
+                # another link of the Gfa in the place of the one the path goes through
+                others = [x for x in self.gfa.dovetails if x is not v.line]
+                if not others:
+                    raise gfapy.NotFoundError("no other link")
+                v.line = others[op.get("idx", 0) % len(others)]
+                return
             v.line = op["value"]
         return core.call(_edit)
     return core.call(l.set, op["field"], op["value"])
